@@ -39,6 +39,10 @@ MAX_PATHS = {"quick": 4000, "thorough": 40000}
 
 
 def patch_spec(case):
+    if case.params.get("kind") == "stepsize":
+        from . import solver_setup as S
+
+        return S.patch_spec()
     fs = fakeh5.FakeFS()
     fs.dirs.add("/work")
     case.params["_fs"] = fs
@@ -57,10 +61,52 @@ def cases(tier, seed):
             ks = range(1, N + 3) if (probes == 0 and (tier == "thorough" or not skip)) else (1, 2, N + 1)
             for k in ks:
                 out.append(Case(f"run:N<={N}:k={k}:probes={probes}:skip={int(skip)}", N=N, k=k, probes=probes, skip=skip, seed=seed))
+    from symx import meshes
+
+    meshes.get_device("bar0", seed)
+    out.append(Case("reported-step-size", kind="stepsize", seed=seed, R=2 if tier == "quick" else 3))
     return out
 
 
+def body_stepsize(H, case):
+    """the runner adds up the time steps that `update` reports and records: the reported and the recorded
+    step must be the one the order parameter was advanced with, also when the kernel refused a few
+    tentative steps first (real TDGLSolver.update / adaptive_euler_step; the kernel is scripted)"""
+    from . import solver_setup as S
+
+    dev = S.symbolic_device(H, "bar0", case.seed, symbolic_mesh=False)
+    ns, ne = len(dev.mesh.sites), len(dev.mesh.edge_mesh.edges)
+    dt_init = H.real("dt_init", lo=1e-3, hi=1.0)
+    mult = H.real("mult", lo=0.1, hi=0.9)
+    opts = S.make_options(dt_init=dt_init, dt_max=1.0, adaptive=True, adaptive_window=1, max_solve_retries=case.R, adaptive_time_step_multiplier=mult)
+    solver = S.make_solver(H, dev, opts, validate=False)
+    refusals = H.choice("refused tentative steps", list(range(case.R + 1)))
+    st = dict(n=0, answered_with=None)
+
+    def fake_kernel(*, psi, abs_sq_psi, mu, epsilon, gamma, u, dt, psi_laplacian):
+        st["n"] += 1
+        if st["n"] <= refusals:
+            return None
+        st["answered_with"] = dt
+        return psi, abs_sq_psi
+
+    solver.solve_for_psi_squared = fake_kernel
+    zed = H.array([0.0] * ne) if H.mode == "sym" else np.zeros(ne)
+    mu0 = H.array([0.0] * ns) if H.mode == "sym" else np.zeros(ns)
+    solver.solve_for_observables = lambda p, dA_dt: (mu0, zed, zed)
+    rs = S.running_state(H, solver, size=4)
+    psi = H.array([1.0] * ns) if H.mode == "sym" else np.ones(ns, dtype=complex)
+    res = solver.update({"step": 0, "time": 0.0, "dt": dt_init}, rs, dt_init, psi=psi, mu=mu0, supercurrent=zed, normal_current=zed,
+                        induced_vector_potential=S.zeros2(H, ne, 2))
+    H.prove("the kernel answered", st["answered_with"] is not None)
+    H.prove_eq(f"after {refusals} refused tentative steps: the step size update() reports is the one the kernel answered with", res.dt, st["answered_with"])
+    rec = rs.values["dt"]
+    H.prove_eq(f"after {refusals} refused tentative steps: the recorded step size is the one the kernel answered with", K.at(rec, 0, 0), st["answered_with"])
+
+
 def body(H, case):
+    if case.params.get("kind") == "stepsize":
+        return body_stepsize(H, case)
     import tdgl.solver.runner as R
     from tdgl.solution.data import DynamicsData, get_data_range
     from tdgl.solution.solution import Solution
